@@ -5,6 +5,7 @@ import Ipv8.C18.Proto
 import Ipv8.C18.Range
 import Ipv8.C18.Ser
 import Ipv8.C18.Verifier
+import Ipv8.C18.Issuance
 open Ipv8 Ipv8.C18
 
 def getInts (ts : List String) : Option (List Int) := ts.mapM String.toInt?
@@ -223,6 +224,23 @@ def protoStep (toks : List String) : Option String :=
       let s' := acc.1.step e
       (s', showS s' :: acc.2)) (VState.init n, [showS (VState.init n)])
     some ("|".intercalate outs.reverse)
+  | ["reqrun", reqs, evs] => do
+    -- issuance bookkeeping: reqs flattened (gt, key)*, events flattened (gt, attestation, seq, nchunks)*
+    let rq ← Proto.natList? reqs
+    let ev ← Proto.natList? evs
+    let rec pairs (fuel : Nat) (l : List Nat) : List (Nat × Nat) :=
+      match fuel, l with
+      | f + 1, a :: b :: rest => (a, b) :: pairs f rest
+      | _, _ => []
+    let rec quads (fuel : Nat) (l : List Nat) : List (Nat × Nat × Nat × Nat) :=
+      match fuel, l with
+      | f + 1, a :: b :: c :: d :: rest => (a, b, c, d) :: quads f rest
+      | _, _ => []
+    let s := runChunks (pairs rq.length rq) (quads ev.length ev)
+    some (Proto.showNatList (s.stored.flatMap fun p => [p.1, p.2]) ++ " " ++ toString s.outstanding.length)
+  | ["guard", large, s, t] => do
+    let large ← large.toInt?; let s ← s.toInt?; let t ← t.toInt?
+    some s!"{verifierAccepts large s} {verifierAccepts large t} {proverAnswersHonestly large s t}"
   | "rcheck" :: rest => do
     let xs ← getInts rest
     rcheck xs
